@@ -1930,7 +1930,15 @@ class PGPKey(Armorable, ParentRef, PGPObject):
         key._parent = self
 
         ##TODO: skip this step if the key already has a subkey binding signature
-        bsig = self.bind(key, **prefs)
+        try:
+            bsig = self.bind(key, **prefs)
+
+        except Exception:
+            # the binding signature cannot be made (a locked primary key, ...): this key stays as it was
+            del self._children[key.fingerprint.keyid]
+            key._parent = None
+            raise
+
         key |= bsig
 
     def _get_key_flags(self, user=None):
